@@ -122,6 +122,10 @@ func goPayloadTable(p *load.Program, typ string) ([]pseg, error) {
 		}
 		f := strings.ReplaceAll(e.Field, recv+".", "")
 		switch {
+		case off == 32 && e.Width == 1 && e.ConstVal != "" && e.Loop == 0:
+			// the action id: a one-byte constant (literal, conversion of a literal, or named constant)
+			out = append(out, pseg{Kind: "action", Off: 32, Width: 1, Value: e.ConstVal})
+			off++
 		case off == 32 && e.Width == 1 && strings.HasPrefix(f, "uint8(") && e.Loop == 0:
 			out = append(out, pseg{Kind: "action", Off: 32, Width: 1, Value: strings.TrimSuffix(strings.TrimPrefix(f, "uint8("), ")")})
 			off++
@@ -511,8 +515,20 @@ func c15lossless(c *Ctx, p *load.Program) {
 			_, hi := facts.IntRange(tb)
 			max, _ := constInt64(hi)
 			// signed source widened to int64 (e.g. int64(uint32)) is reported as narrowing only when ranges really differ
+			// a widening of a value that was itself narrowed (`uint32(uint16(x))`) only serves the
+			// round-trip test below and is not a narrowing of request data
+			if inner, isCv := cv.X.(*ssa.Convert); isCv && strings.HasPrefix(facts.Term(inner), "narrow:") && !strings.HasPrefix(facts.Term(cv), "narrow:narrow:") {
+				if it, ok := inner.X.Type().Underlying().(*types.Basic); ok && it.Kind() == tb.Kind() {
+					return
+				}
+			}
 			n++
 			ok2 := bounded(facts.At(cv, nil), cv.X, max)
+			if !ok2 {
+				// the round-trip idiom: `n := T(x); if W(n) != x { reject }` — every use of the
+				// narrowed value other than that comparison lies behind the fact W(T(x)) == x
+				ok2 = c15roundTrip(cv)
+			}
 			R.Check("C15.lossless", R.Key("C15.lossless", shortFn(fn), "convert:"+facts.Term(cv)), c.rel(p.Pos(cv.Pos())), "narrowing "+facts.Term(cv)+" in "+shortFn(fn)+" is dominated by a range check of its operand", ok2,
 				"no dominating check `"+facts.Term(cv.X)+" <= "+fmt.Sprint(max)+"`: a larger request value is wrapped into the payload instead of being rejected")
 		})
@@ -840,4 +856,48 @@ func c15padLoop(p *load.Program, init, cond, m string) bool {
 		return is32(bound)
 	}
 	return false
+}
+
+// c15roundTrip: every use of narrowing conversion cv (other than the widening that feeds the
+// round-trip comparison) is dominated by the fact widen(cv) == cv.X.
+func c15roundTrip(cv *ssa.Convert) bool {
+	if cv.Referrers() == nil {
+		return false
+	}
+	isRT := func(f facts.Fact) bool {
+		x, op, y, ok := cmpOf(f)
+		if !ok || op != token.EQL {
+			return false
+		}
+		for _, pr := range [][2]ssa.Value{{x, y}, {y, x}} {
+			w, isCv := pr[0].(*ssa.Convert)
+			if isCv && w.X == ssa.Value(cv) && (pr[1] == cv.X || facts.Term(pr[1]) == facts.Term(cv.X)) && types.Identical(w.Type(), cv.X.Type()) {
+				return true
+			}
+		}
+		return false
+	}
+	uses := 0
+	for _, r := range *cv.Referrers() {
+		if _, isDbg := r.(*ssa.DebugRef); isDbg {
+			continue
+		}
+		if w, isCv := r.(*ssa.Convert); isCv && types.Identical(w.Type(), cv.X.Type()) {
+			continue // the widening used by the comparison
+		}
+		uses++
+		okUse := false
+		for _, f := range facts.At(r, nil) {
+			if isRT(f) {
+				okUse = true
+			}
+		}
+		if ph, isPhi := r.(*ssa.Phi); isPhi && !okUse {
+			_ = ph
+		}
+		if !okUse {
+			return false
+		}
+	}
+	return uses > 0
 }
